@@ -1025,6 +1025,36 @@ func E2EQueue(args []string) {
 			res.Distinct++
 			replay := map[string]any{"max_receivers": maxRecv, "joins": joins, "join_exits": exits, "max_active_seen": maxActive,
 				"queued_order": queuedOrder, "start_order": startOrder, "host_tail": tailText(host.out.String(), 300)}
+			if !okAll {
+				// what the joins that did not finish were doing
+				var stuck []map[string]any
+				for r, j := range js {
+					if r < len(exits) && exits[r] == 0 {
+						continue
+					}
+					evs := j.events()
+					var last []string
+					for _, e := range evs {
+						last = append(last, fmt.Sprintf("%s(%s)", e.Pt, e.S))
+					}
+					if len(last) > 12 {
+						last = last[len(last)-12:]
+					}
+					stuck = append(stuck, map[string]any{"join": r, "exit": exits[r], "last_hook_points": last, "output_tail": tailText(j.out.String(), 500)})
+				}
+				var hostEv []string
+				for _, e := range host.events() {
+					if strings.HasPrefix(e.Pt, "host.") || strings.HasPrefix(e.Pt, "auth.") || strings.HasPrefix(e.Pt, "conn.") || strings.HasPrefix(e.Pt, "ice.") {
+						hostEv = append(hostEv, fmt.Sprintf("%s(%s)", e.Pt, e.S))
+					}
+				}
+				if len(hostEv) > 60 {
+					hostEv = hostEv[len(hostEv)-60:]
+				}
+				replay["joins_that_did_not_finish"] = stuck
+				replay["host_hook_points"] = hostEv
+				replay["host_tail"] = tailText(host.out.String(), 1500)
+			}
 			if maxActive > maxRecv {
 				res.AddViolation(map[string]any{"prop": "C12", "kind": "more_simultaneous_transfers_than_max_receivers", "level": "binaries"}, replay)
 			}
